@@ -428,6 +428,9 @@ func StructFieldsAsArgumentsAction(explicitFields ...string) RewriteAction {
 			var constraints []ast.TypeConstraint
 			if field.Type.IsScalar() {
 				constraints = field.Type.AsScalar().Constraints
+			} else if resolved := schemas.ResolveToType(field.Type); field.Type.IsRef() && resolved.IsScalar() {
+				// a field typed by a reference to a scalar is bound by the constraints of that scalar
+				constraints = resolved.AsScalar().Constraints
 			}
 
 			// It sets the default to the args to simplify the process to extract the values in each language
@@ -618,6 +621,12 @@ func StructFieldsAsOptionsAction(explicitFields ...string) RewriteAction {
 				continue
 			}
 
+			fieldAssignment := ast.FieldAssignment(field)
+			// a field typed by a reference to a scalar is bound by the constraints of that scalar
+			if resolved := schemas.ResolveToType(field.Type); field.Type.IsRef() && resolved.IsScalar() {
+				ast.WithTypeConstraints(resolved.AsScalar().Constraints)(&fieldAssignment)
+			}
+
 			newOpt := ast.Option{
 				Name:     field.Name,
 				Comments: field.Comments,
@@ -625,7 +634,7 @@ func StructFieldsAsOptionsAction(explicitFields ...string) RewriteAction {
 					{Name: field.Name, Type: field.Type},
 				},
 				Assignments: []ast.Assignment{
-					ast.FieldAssignment(field),
+					fieldAssignment,
 				},
 			}
 			newOpt.AddToVeneerTrail("StructFieldsAsOptions")
